@@ -9,4 +9,5 @@ CONSTANTS
   Families = {"rich", "rand"}
   NRand = 12
   RandSize = 9
+INVARIANT TreesOK0
 INVARIANT Emit
